@@ -6,7 +6,7 @@
    replays the answers the implementation obtained.  Definitions only. *)
 From Coq Require Import List String Bool QArith Qabs ZArith.
 Import ListNotations.
-Require Import Py ListsGen Sem Term.
+Require Import Py ListsGen ConstGen Sem Term.
 Local Open Scope Q_scope.
 
 (* ---------- the LP oracle ---------- *)
@@ -81,13 +81,15 @@ Definition poly_is_empty (O : oracle) (self : list pterm) : M bool :=
   is_polytope_empty O (List.length vs) (map (term_to_row vs) self).
 
 (* ---------- containment ---------- *)
+(* b_temp + REFINEMENT_TOLERANCE * (1 + abs(b_temp)) : the constant is read from the source by the translator *)
+Definition tol_bound (b : Q) : Q := qadd b (qmul REFINEMENT_TOLERANCE (qadd 1 (qabs b))).
 Fixpoint containment_loop (O : oracle) (a_l a_r : list row) : M bool :=
   match a_r with
   | [] => ret true
   | (a, b) :: rest =>
       match O (mkLP (map qneg a) (a_l ++ [(a, qadd b 1)])) with
       | LpInfeasible => ret false
-      | LpOpt f _ => if qle (qneg f) b then containment_loop O a_l rest else ret false
+      | LpOpt f _ => if qle (qneg f) (tol_bound b) then containment_loop O a_l rest else ret false
       | LpUnbounded | LpOther _ => raise (Escape "TypeError")
       | LpMiss => raise OracleMiss
       end
